@@ -716,6 +716,23 @@ pub fn generate(tier: &str, seed: u64, out: &mut Out) {
             }
         }
     }
+    // a multiple of the tick distance landing EXACTLY on the cut-off len - 10 * velocity (all
+    // quantities exact in binary64), for lengths of every shape - the boundary of the tick rule
+    for &vel in &[0.5, 1.0, 2.0, 3.0, 0.25, 1.5] {
+        for &td in &[40.0, 30.0, 25.0, 12.5, 7.0, 10.0, 33.0, 0.75] {
+            for k in 1..=(if thorough { 12 } else { 7 }) {
+                for extra in [0.0, td / 2.0, td] {
+                    let total = f64::from(k) * td + 10.0 * vel + extra;
+                    for n in [1, 2, 3] {
+                        let p = P { start: 1000.0, dur: total / vel, vel, td, total, n };
+                        if collectable(&p) {
+                            run_case(&full(p), out, "tick_on_cutoff");
+                        }
+                    }
+                }
+            }
+        }
+    }
     // random playable parameters
     let n_play = if thorough { 30000 } else { 2500 };
     for _ in 0..n_play {
